@@ -241,7 +241,9 @@ def plan_threshold(rng, cfg, shared_ok=False, run_index=None):
             cfg["n_events"] = min(cfg["n_events"], 16)
             cfg["n_nodes"] = min(cfg["n_nodes"], 2)
     elif dim == "table_bytes" and C <= (1 << 25) and fam in CMS:
-        cells = C // itemsize + rng.choice([1, 3, 17, 1000])
+        base_cells = C // itemsize
+        # just past the constant, and well past it (a remainder large enough to hold data)
+        cells = base_cells + rng.choice([1, 17, 1000, base_cells // 3 + 1, base_cells // 2 + 3])
         d = rng.randrange(1, 5)
         cfg["width"], cfg["depth"] = max(1, -(-cells // d)), d
         if cells > 4096:
